@@ -47,13 +47,20 @@ Consts(k) == {"ZERO", "ONE", "NEG_ONE", "MIN", "MAX", "NAN", "INFINITY", "NEG_IN
 Ev(act, path, lane, tok, post) ==
     [act |-> act, path |-> path, lane |-> lane, tok |-> tok, post |-> post]
 
+\* the effect of each action on the register alone (shared with the trace specification Trace_C17, which binds the
+\* arguments to logged values and drops the history variable)
+ConstructReg(vals) == reg' = vals
+SplatReg(t) == reg' = [j \in 1..n |-> t]
+WriteReg(lane, t) == reg' = [reg EXCEPT ![lane] = t]
+ReadReg == UNCHANGED reg
+
 Construct(path, vals) ==
-    /\ reg' = vals
+    /\ ConstructReg(vals)
     /\ hist' = Append(hist, Ev("ctor", path, 0, "-", vals))
     /\ UNCHANGED <<n, reg0>>
 
 Splat(t) ==
-    /\ reg' = [j \in 1..n |-> t]
+    /\ SplatReg(t)
     /\ hist' = Append(hist, Ev("ctor", "splat", 0, t, [j \in 1..n |-> t]))
     /\ UNCHANGED <<n, reg0>>
 
@@ -63,13 +70,14 @@ Const(c) ==
     /\ UNCHANGED <<n, reg0>>
 
 Write(path, lane, t) ==
-    /\ reg' = [reg EXCEPT ![lane] = t]
+    /\ WriteReg(lane, t)
     /\ hist' = Append(hist, Ev("write", path, lane - 1, t, [reg EXCEPT ![lane] = t]))
     /\ UNCHANGED <<n, reg0>>
 
 Read(path) ==
+    /\ ReadReg
     /\ hist' = Append(hist, Ev("read", path, 0, "-", reg))
-    /\ UNCHANGED <<n, reg0, reg>>
+    /\ UNCHANGED <<n, reg0>>
 
 \* long (simulated) histories concentrate on interleaved reads and writes: few constructor values
 CtorVals == IF MaxHist = 1 THEN [1..n -> Tok]
